@@ -574,3 +574,498 @@ Example dry_run_nonvacuous :
   snd (run ops (new_em None true)) = [false; false; false; false; false; false; true; true] /\
   PC (fst (run ops (new_em None true))) = 32777.
 Proof. cbv zeta. repeat split; vm_compute; reflexivity. Qed.
+
+(* ================================================================== what no call changes *)
+Lemma write_fields : forall d e e', write d e = Some e' ->
+  flags e' = flags e /\ gen e' = gen e /\ lines e' = lines e /\ base e' = base e /\ baseSet e' = baseSet e /\
+  address e' = address e /\ labels e' = labels e /\ d8 e' = d8 e /\ d16 e' = d16 e /\
+  (buf e' = None <-> buf e = None).
+Proof.
+  intros d e e' H. unfold write in H. em_destruct e. cbn in H. destruct b as [b|].
+  - destruct (zlen b <? n0 + zlen d); [discriminate|]. inversion H. cbn. repeat split; discriminate.
+  - inversion H. cbn. repeat split.
+Qed.
+
+Lemma write_cap : forall d e e', inv e -> write d e = Some e' -> zlen (code e') = zlen (code e).
+Proof.
+  intros d e e' Hi H. unfold write in H. unfold inv, code in *. em_destruct e. cbn in *. destruct b as [b|].
+  - destruct (zlen b <? n0 + zlen d) eqn:E; [discriminate|]. apply Z.ltb_ge in E. inversion H. cbn.
+    pose proof (zlen_nonneg _ d). rewrite zlen_splice by lia. reflexivity.
+  - inversion H. reflexivity.
+Qed.
+
+(* generateText never changes; a nil target stays nil; the capacity never changes *)
+Lemma exec_static : forall o e,
+  gen (state_of (exec o e)) = gen e /\ (buf (state_of (exec o e)) = None <-> buf e = None) /\
+  (inv e -> zlen (code (state_of (exec o e))) = zlen (code e)).
+Proof.
+  intros o e. destruct o as [a|c|c|k d l t g|d|id|l]; cbn [exec].
+  - em_destruct e. cbn. repeat split; auto.
+  - em_destruct e. cbn. repeat split; auto.
+  - em_destruct e. cbn. repeat split; auto.
+  - destruct (guard_ok g e); cbn [state_of]; [|repeat split; auto].
+    unfold emitK. pose proof (apply_track_store t e) as [Hb Hn].
+    assert (Hg : gen (apply_track t e) = gen e) by (em_destruct e; destruct t; reflexivity).
+    destruct (write d (apply_track t e)) as [e1|] eqn:Hw; cbn [state_of].
+    + destruct (write_fields _ _ _ Hw) as (_ & Hg1 & _ & _ & _ & _ & _ & _ & _ & Hnil).
+      pose proof (emit_post_store k l e1) as [Hpb Hpn].
+      assert (Hpg : gen (emit_post k l e1) = gen e1).
+      { clear. em_destruct e1. unfold emit_post, emitBase, add_lines. destruct g, bs, k; reflexivity. }
+      split; [congruence|]. split; [rewrite Hpb, Hnil, Hb; reflexivity|].
+      intros Hi. unfold code. rewrite Hpb. fold (code e1).
+      rewrite (write_cap _ _ _ (inv_store _ _ (apply_track_store t e) Hi) Hw). unfold code. rewrite Hb. reflexivity.
+    + split; [exact Hg|]. split; [rewrite Hb; reflexivity|]. intros _. unfold code. rewrite Hb. reflexivity.
+  - unfold EmitBytes. pose proof (emitBytes_lines_store d e) as [Hb Hn].
+    assert (Hg : gen (emitBytes_lines d e) = gen e).
+    { clear. em_destruct e. unfold emitBytes_lines, emitBase, add_lines. destruct g, bs; reflexivity. }
+    destruct (write d (emitBytes_lines d e)) as [e2|] eqn:Hw; cbn [state_of].
+    + destruct (write_fields _ _ _ Hw) as (_ & Hg1 & _ & _ & _ & _ & _ & _ & _ & Hnil).
+      split; [em_destruct e2; cbn in *; congruence|].
+      split; [em_destruct e2; cbn in *; rewrite Hnil, Hb; reflexivity|].
+      intros Hi. pose proof (write_cap _ _ _ (inv_store _ _ (emitBytes_lines_store d e) Hi) Hw) as Hc.
+      em_destruct e2. unfold code in *. cbn in *. rewrite Hc, Hb. reflexivity.
+    + split; [exact Hg|]. split; [rewrite Hb; reflexivity|]. intros _. unfold code. rewrite Hb. reflexivity.
+  - em_destruct e. unfold Comment, emitBase, add_lines. destruct g, bs; cbn; repeat split; auto.
+  - unfold Label. destruct (lookup l (labels e)); cbn [state_of]; [repeat split; auto|].
+    em_destruct e. destruct g; cbn; repeat split; auto.
+Qed.
+
+(* the three maps stay canonical and only ever gain keys under [exec] *)
+Definition maps_sorted (e : em) : Prop := sorted (labels e) /\ sorted (d8 e) /\ sorted (d16 e).
+Definition keys_incl (e e' : em) : Prop :=
+  (forall k, In k (keys (labels e)) -> In k (keys (labels e'))) /\
+  (forall k, In k (keys (d8 e)) -> In k (keys (d8 e'))) /\
+  (forall k, In k (keys (d16 e)) -> In k (keys (d16 e'))).
+Definition same_maps (e e' : em) : Prop := labels e' = labels e /\ d8 e' = d8 e /\ d16 e' = d16 e.
+
+Lemma keys_incl_refl : forall e, keys_incl e e.
+Proof. intros. unfold keys_incl. auto. Qed.
+Lemma keys_incl_trans : forall a b c, keys_incl a b -> keys_incl b c -> keys_incl a c.
+Proof. intros a b c (H1 & H2 & H3) (G1 & G2 & G3). unfold keys_incl. repeat split; auto. Qed.
+Lemma same_maps_ok : forall e e', same_maps e e' -> maps_sorted e -> maps_sorted e' /\ keys_incl e e'.
+Proof.
+  intros e e' (H1 & H2 & H3) Hs. unfold maps_sorted, keys_incl. rewrite H1, H2, H3. split; [exact Hs|auto].
+Qed.
+
+Lemma emit_post_maps : forall k l e, maps_sorted e -> maps_sorted (emit_post k l e) /\ keys_incl e (emit_post k l e).
+Proof.
+  intros k l e (S1 & S2 & S3). em_destruct e. unfold emit_post, emitBase, add_lines, maps_sorted, keys_incl, add_dangling.
+  cbn in S1, S2, S3.
+  destruct g, bs, k; cbn; repeat split; auto; try (apply insert_sorted; assumption);
+    intros k0 Hk; apply insert_keys; right; exact Hk.
+Qed.
+
+Lemma exec_maps : forall o e, maps_sorted e ->
+  maps_sorted (state_of (exec o e)) /\ keys_incl e (state_of (exec o e)).
+Proof.
+  intros o e Hs. destruct o as [a|c|c|k d l t g|d|id|l]; cbn [exec].
+  - apply same_maps_ok; [|exact Hs]. em_destruct e. repeat split.
+  - apply same_maps_ok; [|exact Hs]. em_destruct e. repeat split.
+  - apply same_maps_ok; [|exact Hs]. em_destruct e. repeat split.
+  - destruct (guard_ok g e); cbn [state_of]; [|split; [exact Hs|apply keys_incl_refl]].
+    assert (Ht : same_maps e (apply_track t e)) by (em_destruct e; destruct t; repeat split).
+    unfold emitK. destruct (write d (apply_track t e)) as [e1|] eqn:Hw; cbn [state_of].
+    + destruct (write_fields _ _ _ Hw) as (_ & _ & _ & _ & _ & _ & L1 & L2 & L3 & _).
+      destruct Ht as (T1 & T2 & T3).
+      assert (H1 : same_maps e e1) by (unfold same_maps; rewrite L1, L2, L3; auto).
+      destruct (same_maps_ok _ _ H1 Hs) as [Hs1 Hk1].
+      destruct (emit_post_maps k l e1 Hs1) as [Hs2 Hk2].
+      split; [exact Hs2|eapply keys_incl_trans; eassumption].
+    + apply same_maps_ok; assumption.
+  - unfold EmitBytes.
+    assert (Ht : same_maps e (emitBytes_lines d e)).
+    { em_destruct e. unfold emitBytes_lines, emitBase, add_lines. destruct g, bs; repeat split. }
+    destruct (write d (emitBytes_lines d e)) as [e2|] eqn:Hw; cbn [state_of].
+    + destruct (write_fields _ _ _ Hw) as (_ & _ & _ & _ & _ & _ & L1 & L2 & L3 & _).
+      destruct Ht as (T1 & T2 & T3). apply same_maps_ok; [|exact Hs].
+      em_destruct e2. unfold same_maps. cbn in *. rewrite L1, L2, L3. auto.
+    + apply same_maps_ok; assumption.
+  - apply same_maps_ok; [|exact Hs]. em_destruct e. unfold Comment, emitBase, add_lines. destruct g, bs; repeat split.
+  - unfold Label. destruct (lookup l (labels e)) eqn:E; cbn [state_of]; [split; [exact Hs|apply keys_incl_refl]|].
+    destruct Hs as (S1 & S2 & S3). em_destruct e. unfold maps_sorted, keys_incl. cbn in *.
+    destruct g; cbn; repeat split; auto; try (apply insert_sorted; assumption);
+      intros k0 Hk; apply insert_keys; right; exact Hk.
+Qed.
+
+(* ================================================================== C16: Clone + Append *)
+(* the emitter that results from appending clone [c] to original [a] when [c]'s maps already contain
+   [a]'s (which is what a clone's maps do); [Append true] produces it up to [merge] *)
+Definition glue (a c : em) : em :=
+  mkEm (flags c) (gen a)
+       (match buf a with None => None | Some b => Some (splice b (n a) (ztake (n c) (code c))) end)
+       (n a + n c) (lines a ++ lines c) (base c) (baseSet c) (address c) (labels c) (d8 c) (d16 c).
+
+(* coupling between the original and its clone *)
+Definition coupled (a c : em) : Prop :=
+  gen c = gen a /\ (buf a = None <-> buf c = None) /\ inv a /\ inv c /\ n a + n c <= zlen (code a).
+
+Lemma glue_clone : forall target a, glue a (Clone target a) = a.
+Proof.
+  intros target a. em_destruct a. unfold glue, Clone. cbn.
+  rewrite Z.add_0_r, app_nil_r. destruct b as [b|]; [|reflexivity].
+  unfold ztake. cbn. rewrite splice_nil. reflexivity.
+Qed.
+
+Lemma glue_cap : forall a c, coupled a c -> zlen (code (glue a c)) = zlen (code a).
+Proof.
+  intros a c (Hg & Hnil & Ha & Hc & Hf). unfold inv in *. unfold glue, code in *. cbn.
+  destruct (buf a) as [ba|]; [|reflexivity].
+  assert (Hl : zlen (ztake (n c) match buf c with Some b => b | None => [] end) = n c).
+  { rewrite zlen_ztake by lia. lia. }
+  rewrite zlen_splice by lia. reflexivity.
+Qed.
+
+Lemma glue_inv : forall a c, coupled a c -> inv (glue a c).
+Proof.
+  intros a c H. pose proof (glue_cap a c H) as Hc. destruct H as (Hg & Hnil & Ha & Hcc & Hf).
+  unfold inv in *. rewrite Hc. unfold glue. cbn. lia.
+Qed.
+
+Lemma guard_ok_glue : forall g a c, guard_ok g (glue a c) = guard_ok g c.
+Proof. intros g a c. em_destruct c. destruct g; reflexivity. Qed.
+Lemma apply_track_glue : forall t a c, apply_track t (glue a c) = glue a (apply_track t c).
+Proof. intros t a c. em_destruct c. destruct t; reflexivity. Qed.
+Lemma emit_post_glue : forall k l a c, gen c = gen a -> emit_post k l (glue a c) = glue a (emit_post k l c).
+Proof.
+  intros k l a c Hg. em_destruct a. em_destruct c. cbn in Hg. subst g0.
+  unfold emit_post, glue, emitBase, add_lines, code.
+  destruct g, bs0, k; cbn; rewrite <- ?app_assoc; reflexivity.
+Qed.
+Lemma emitBytes_lines_glue : forall d a c, gen c = gen a -> emitBytes_lines d (glue a c) = glue a (emitBytes_lines d c).
+Proof.
+  intros d a c Hg. em_destruct a. em_destruct c. cbn in Hg. subst g0.
+  unfold emitBytes_lines, glue, emitBase, add_lines, code.
+  destruct g, bs0; cbn; rewrite <- ?app_assoc; reflexivity.
+Qed.
+
+Lemma ztake_splice_end : forall (l d : list Z) a, 0 <= a -> a + zlen d <= zlen l ->
+  ztake (a + zlen d) (splice l a d) = ztake a l ++ d.
+Proof.
+  intros l d a Ha Hl. unfold splice. pose proof (zlen_nonneg _ d).
+  assert (Hz : zlen (ztake a l) = a) by (rewrite zlen_ztake by lia; lia).
+  rewrite ztake_app. rewrite Hz. rewrite (ztake_all _ (ztake a l)) by lia.
+  replace (a + zlen d - a) with (zlen d) by lia. rewrite ztake_app_exact. reflexivity.
+Qed.
+
+(* write() on the glued emitter = glue of write() on the clone *)
+Lemma write_glue : forall d a c c1, coupled a c ->
+  write_fails d (glue a c) = false -> write d c = Some c1 ->
+  write d (glue a c) = Some (glue a c1).
+Proof.
+  intros d a c c1 Hcp Hf Hw. pose proof (glue_cap a c Hcp) as Hcap.
+  destruct Hcp as (Hg & Hnil & Ha & Hc & Hfit).
+  rewrite write_spec, Hf. f_equal.
+  unfold write in Hw. unfold write_fails in Hf. unfold inv, code in *.
+  em_destruct a. em_destruct c. cbn in *. subst g0.
+  destruct b as [bufa|]; destruct b0 as [bufc|]; cbn in *.
+  - destruct (zlen bufc <? n1 + zlen d) eqn:E; [discriminate|]. apply Z.ltb_ge in E.
+    apply Z.ltb_ge in Hf. inversion Hw. subst c1. unfold glue. cbn.
+    pose proof (zlen_nonneg _ d) as Hd.
+    assert (Hz : zlen (ztake n1 bufc) = n1) by (rewrite zlen_ztake by lia; lia).
+    rewrite Z.add_assoc. f_equal. f_equal.
+    rewrite ztake_splice_end by lia.
+    rewrite <- (splice_adj _ bufa (ztake n1 bufc) d n0) by lia. rewrite Hz. reflexivity.
+  - destruct Hnil as [_ Hn]. specialize (Hn eq_refl). discriminate.
+  - destruct Hnil as [Hn _]. specialize (Hn eq_refl). discriminate.
+  - inversion Hw. subst c1. reflexivity.
+Qed.
+
+Lemma exec_glue : forall o a c, coupled a c ->
+  cap_refused o c = false -> cap_refused o (glue a c) = false ->
+  exec o (glue a c) = map_outcome (glue a) (exec o c).
+Proof.
+  intros o a c Hcp Hc Hgc. pose proof Hcp as (Hg & Hnil & Ha & Hci & Hfit).
+  destruct o as [x|x|x|k d l t g|d|id|l]; cbn [exec map_outcome cap_refused] in *.
+  - em_destruct c. reflexivity.
+  - em_destruct c. reflexivity.
+  - em_destruct c. reflexivity.
+  - rewrite guard_ok_glue in *. destruct (guard_ok g c); [|reflexivity]. cbn [andb] in *.
+    unfold emitK. rewrite apply_track_glue in *.
+    destruct (write d (apply_track t c)) as [c1|] eqn:Hw; [|rewrite write_spec, Hc in Hw; discriminate].
+    assert (Hcp1 : coupled a (apply_track t c)).
+    { pose proof (apply_track_store t c) as [Hb Hn].
+      assert (Hg' : gen (apply_track t c) = gen c) by (em_destruct c; destruct t; reflexivity).
+      unfold coupled, inv, code in *. rewrite Hb, Hn, Hg'. repeat split; tauto || lia. }
+    rewrite (write_glue d a _ c1 Hcp1 Hgc Hw). cbn [map_outcome]. f_equal.
+    apply emit_post_glue. destruct (write_fields _ _ _ Hw) as (_ & Hg1 & _).
+    rewrite Hg1. destruct Hcp1 as (Hg2 & _). exact Hg2.
+  - unfold EmitBytes. rewrite emitBytes_lines_glue in * by exact Hg.
+    destruct (write d (emitBytes_lines d c)) as [c2|] eqn:Hw; [|rewrite write_spec, Hc in Hw; discriminate].
+    assert (Hcp1 : coupled a (emitBytes_lines d c)).
+    { pose proof (emitBytes_lines_store d c) as [Hb Hn].
+      assert (Hg' : gen (emitBytes_lines d c) = gen c).
+      { clear. em_destruct c. unfold emitBytes_lines, emitBase, add_lines. destruct g, bs; reflexivity. }
+      unfold coupled, inv, code in *. rewrite Hb, Hn, Hg'. repeat split; tauto || lia. }
+    rewrite (write_glue d a _ c2 Hcp1 Hgc Hw). cbn [map_outcome]. f_equal; try (em_destruct c2; reflexivity).
+  - f_equal. em_destruct a. em_destruct c. cbn in Hg. subst g0.
+    unfold Comment, glue, emitBase, add_lines, code. destruct g, bs0; cbn; rewrite <- ?app_assoc; reflexivity.
+  - unfold Label. change (labels (glue a c)) with (labels c).
+    destruct (lookup l (labels c)); cbn [map_outcome]; [reflexivity|].
+    f_equal. em_destruct a. em_destruct c. cbn in Hg. subst g0.
+    unfold glue, add_lines, code. destruct g; cbn; rewrite <- ?app_assoc; reflexivity.
+Qed.
+
+Lemma exec_coupled : forall o a c, coupled a c ->
+  cap_refused o c = false -> cap_refused o (glue a c) = false ->
+  coupled a (state_of (exec o c)).
+Proof.
+  intros o a c Hcp Hc Hgc. pose proof (exec_glue o a c Hcp Hc Hgc) as He.
+  pose proof (glue_inv a c Hcp) as Hgi. pose proof (glue_cap a c Hcp) as Hgcap.
+  destruct Hcp as (Hg & Hnil & Ha & Hci & Hfit).
+  destruct (exec_static o c) as (Sg & Snil & Scap).
+  destruct (exec_static o (glue a c)) as (_ & _ & Gcap). specialize (Gcap Hgi).
+  pose proof (exec_inv o (glue a c) Hgi) as Gi.
+  rewrite He, state_of_map in Gcap, Gi.
+  unfold coupled. split; [congruence|]. split; [tauto|]. split; [exact Ha|].
+  split; [apply exec_inv; exact Hci|].
+  unfold inv in Gi. rewrite Gcap, Hgcap in Gi. unfold glue in Gi. cbn in Gi. lia.
+Qed.
+
+Theorem run_glue : forall t a c, coupled a c ->
+  no_cap_refusal t c = true -> no_cap_refusal t (glue a c) = true ->
+  run t (glue a c) = (glue a (fst (run t c)), snd (run t c)) /\ coupled a (fst (run t c)).
+Proof.
+  induction t as [|o r IH]; intros a c Hcp Hc Hg; cbn [run no_cap_refusal] in *; [split; [reflexivity|exact Hcp]|].
+  apply andb_true_iff in Hc. destruct Hc as [Hc Hcr]. apply negb_true_iff in Hc.
+  apply andb_true_iff in Hg. destruct Hg as [Hg Hgr]. apply negb_true_iff in Hg.
+  pose proof (exec_glue o a c Hcp Hc Hg) as He. pose proof (exec_coupled o a c Hcp Hc Hg) as Hcp'.
+  rewrite He, state_of_map, is_refused_map in *.
+  destruct (IH a _ Hcp' Hcr Hgr) as [Hrun Hcpf]. rewrite Hrun.
+  destruct (run r (state_of (exec o c))) as [cf rl]. cbn [fst snd] in *. split; [reflexivity|exact Hcpf].
+Qed.
+
+Lemma run_maps : forall t e, maps_sorted e -> maps_sorted (fst (run t e)) /\ keys_incl e (fst (run t e)).
+Proof.
+  induction t as [|o r IH]; intros e Hs; cbn [run]; [split; [exact Hs|apply keys_incl_refl]|].
+  destruct (exec_maps o e Hs) as [Hs1 Hk1]. destruct (IH _ Hs1) as [Hs2 Hk2].
+  destruct (run r (state_of (exec o e))) as [ef rl]. cbn [fst] in *.
+  split; [exact Hs2|eapply keys_incl_trans; eassumption].
+Qed.
+
+Lemma run_inv : forall t e, inv e -> inv (fst (run t e)).
+Proof.
+  induction t as [|o r IH]; intros e Hi; cbn [run]; [exact Hi|].
+  specialize (IH _ (exec_inv o e Hi)). destruct (run r (state_of (exec o e))). exact IH.
+Qed.
+
+Lemma run_nil : forall t e, buf (fst (run t e)) = None <-> buf e = None.
+Proof.
+  induction t as [|o r IH]; intros e; cbn [run]; [reflexivity|].
+  destruct (exec_static o e) as (_ & Hn & _). specialize (IH (state_of (exec o e))).
+  destruct (run r (state_of (exec o e))). cbn [fst] in *. rewrite IH. exact Hn.
+Qed.
+
+Lemma run_app : forall h t e,
+  run (h ++ t) e = (fst (run t (fst (run h e))), snd (run h e) ++ snd (run t (fst (run h e)))).
+Proof.
+  induction h as [|o r IH]; intros t e; cbn [app run].
+  - cbn [fst snd app]. destruct (run t e); reflexivity.
+  - rewrite IH. destruct (run r (state_of (exec o e))) as [ef rl]. reflexivity.
+Qed.
+
+(* Append with base copied = glue, once the clone's maps contain the original's *)
+Lemma append_glue : forall a c, coupled a c -> maps_sorted a -> maps_sorted c -> keys_incl a c ->
+  Append true a c = Done (glue a c).
+Proof.
+  intros a c (Hg & Hnil & Ha & Hc & Hfit) (A1 & A2 & A3) (C1 & C2 & C3) (K1 & K2 & K3).
+  unfold Append. destruct (zlen (code a) <? n a + n c) eqn:E; [apply Z.ltb_lt in E; lia|].
+  unfold glue. rewrite !merge_absorb by assumption. reflexivity.
+Qed.
+
+(* the state-level theorem: from ANY well-formed emitter [a], running a history on a clone and appending
+   yields exactly the emitter obtained by running the history on [a] itself *)
+Theorem clone_append_state : forall t a target,
+  inv a -> maps_sorted a -> (buf a = None <-> target = None) ->
+  no_cap_refusal t a = true -> no_cap_refusal t (Clone target a) = true ->
+  Append true a (fst (run t (Clone target a))) = Done (fst (run t a)) /\
+  snd (run t (Clone target a)) = snd (run t a).
+Proof.
+  intros t a target Hi Hs Hnil Hda Hdc.
+  assert (Hcp : coupled a (Clone target a)).
+  { unfold coupled. split; [reflexivity|]. split; [exact Hnil|]. split; [exact Hi|].
+    split; [apply clone_inv|]. unfold Clone. cbn. unfold inv in Hi. lia. }
+  pose proof (run_glue t a (Clone target a) Hcp Hdc) as Hrg. rewrite glue_clone in Hrg.
+  destruct (Hrg Hda) as [Hrun Hcpf].
+  assert (Hsc : maps_sorted (Clone target a)) by exact Hs.
+  destruct (run_maps t _ Hsc) as [Hsf Hkf].
+  rewrite append_glue; try assumption.
+  - rewrite Hrun. cbn [fst snd]. split; reflexivity.
+Qed.
+
+(* everything a client can observe of an emitter (C16's list): bytes, Len, PC, tracked flags, every
+   label, both listings, and for EVERY pair of visiting orders the Finalize outcome, the finalized bytes
+   and the listings after Finalize *)
+Record observation := mkObservation {
+  ob_bytes : list Z; ob_len : Z; ob_cap : Z; ob_pc : Z; ob_flags : Z; ob_base : Z;
+  ob_label : lbl -> option Z;
+  ob_text : list rline * bool; ob_hex : list rline * bool;
+  ob_finalize : list lbl -> list lbl -> fres * list Z * (list rline * bool) * (list rline * bool) }.
+Definition observe (e : em) : observation :=
+  mkObservation (Bytes e) (Len e) (Cap e) (PC e) (Flags e) (GetBase e) (fun l => GetLabel l e)
+    (WriteTextTo e) (WriteHexTo e)
+    (fun o8 o16 => let '(e1, r) := Finalize o8 o16 e in (r, Bytes e1, WriteTextTo e1, WriteHexTo e1)).
+
+Lemma new_em_ok : forall target g, inv (new_em target g) /\ maps_sorted (new_em target g).
+Proof.
+  intros target g. split.
+  - unfold inv, new_em, code. cbn. destruct target as [t|]; [pose proof (zlen_nonneg _ t)|cbn]; lia.
+  - unfold maps_sorted, new_em. cbn. auto.
+Qed.
+
+(* C16 for the emitter whose Append copies base (the repaired code), over every history, every split
+   point, listing on or off, any base or none, labels on either side of the split *)
+Theorem clone_append_equiv : forall ops k target0 g target,
+  let e0 := new_em target0 g in
+  let a := fst (run (firstn k ops) e0) in
+  let c := run (skipn k ops) (Clone target a) in
+  (target0 = None <-> target = None) ->
+  no_cap_refusal (skipn k ops) a = true ->                   (* the tail fits the original's target *)
+  no_cap_refusal (skipn k ops) (Clone target a) = true ->    (* and the clone's *)
+  Append true a (fst c) = Done (fst (run ops e0)) /\
+  snd (run ops e0) = snd (run (firstn k ops) e0) ++ snd c.
+Proof.
+  intros ops k target0 g target e0 a c Hnil Hda Hdc.
+  destruct (new_em_ok target0 g) as [Hi0 Hs0].
+  assert (Hia : inv a) by (apply run_inv; exact Hi0).
+  assert (Hsa : maps_sorted a) by (apply run_maps; exact Hs0).
+  assert (Hna : buf a = None <-> target = None).
+  { unfold a. rewrite run_nil. exact Hnil. }
+  destruct (clone_append_state (skipn k ops) a target Hia Hsa Hna Hda Hdc) as [Happ Hrl].
+  assert (Hr : run ops e0 = (fst (run (skipn k ops) a), snd (run (firstn k ops) e0) ++ snd (run (skipn k ops) a))).
+  { rewrite <- (firstn_skipn k ops) at 1. rewrite run_app. reflexivity. }
+  rewrite Hr. cbn [fst snd]. unfold c. rewrite Happ, Hrl. split; reflexivity.
+Qed.
+
+Theorem clone_append_observe : forall ops k target0 g target,
+  let e0 := new_em target0 g in
+  let a := fst (run (firstn k ops) e0) in
+  let c := fst (run (skipn k ops) (Clone target a)) in
+  (target0 = None <-> target = None) ->
+  no_cap_refusal (skipn k ops) a = true ->
+  no_cap_refusal (skipn k ops) (Clone target a) = true ->
+  is_refused (Append true a c) = false /\
+  observe (state_of (Append true a c)) = observe (fst (run ops e0)).
+Proof.
+  intros ops k target0 g target e0 a c Hnil Hda Hdc.
+  destruct (clone_append_equiv ops k target0 g target Hnil Hda Hdc) as [H _].
+  fold e0 a in H. fold c in H. rewrite H. split; reflexivity.
+Qed.
+
+(* the same with a static size premise instead of "nothing refused for capacity" *)
+Corollary clone_append_room : forall ops k b g bc,
+  let e0 := new_em (Some b) g in
+  let a := fst (run (firstn k ops) e0) in
+  let c := fst (run (skipn k ops) (Clone (Some bc) a)) in
+  total_demand ops <= zlen b -> total_demand (skipn k ops) <= zlen bc ->
+  observe (state_of (Append true a c)) = observe (fst (run ops e0)).
+Proof.
+  intros ops k b g bc e0 a c Hb Hbc.
+  assert (Hd : forall l, 0 <= total_demand l).
+  { induction l as [|o r IHr]; cbn [total_demand]; [lia|]. pose proof (demand_nonneg o). lia. }
+  assert (Hsplit : total_demand ops = total_demand (firstn k ops) + total_demand (skipn k ops)).
+  { rewrite <- (firstn_skipn k ops) at 1. generalize (firstn k ops) as h. intros h.
+    induction h as [|o r IHr]; cbn [app total_demand]; lia. }
+  destruct (new_em_ok (Some b) g) as [Hi0 Hs0].
+  (* bytes emitted by the head are bounded by its demand *)
+  assert (Hgrow : forall l e, inv e -> buf e <> None -> n e + total_demand l <= zlen (code e) ->
+            n (fst (run l e)) <= n e + total_demand l /\ zlen (code (fst (run l e))) = zlen (code e)).
+  { induction l as [|o r IHr]; intros e Hi Hne Hle; cbn [run total_demand] in *; [cbn; lia|].
+    pose proof (Hd r). pose proof (demand_nonneg o).
+    destruct (exec_growth o e Hi Hne ltac:(lia)) as (_ & Hn & Hl & Hb').
+    specialize (IHr (state_of (exec o e)) (exec_inv o e Hi) Hb' ltac:(rewrite Hl; lia)).
+    destruct (run r (state_of (exec o e))) as [ef rl]. cbn [fst] in *. rewrite Hl in IHr. lia. }
+  assert (Hne0 : buf e0 <> None) by (unfold e0, new_em; cbn; discriminate).
+  pose proof (Hd (skipn k ops)) as Hds.
+  destruct (Hgrow (firstn k ops) e0 Hi0 Hne0) as [Hna Hca].
+  { unfold e0, new_em, code. cbn. lia. }
+  assert (Hia : inv a) by (apply run_inv; exact Hi0).
+  assert (Hnea : buf a <> None).
+  { unfold a. intros H. apply run_nil in H. exact (Hne0 H). }
+  apply clone_append_observe.
+  - split; discriminate.
+  - fold e0. fold a. apply room_suffices; try assumption.
+    fold a in Hna, Hca. rewrite Hca. unfold e0, new_em, code in *. cbn in *. lia.
+  - fold e0. fold a. apply room_suffices; [apply clone_inv|unfold Clone; cbn; discriminate|].
+    unfold Clone, code. cbn. lia.
+Qed.
+
+(* frame lemmas.  In the functional model an emitter is a value: nothing done to the clone can change
+   the original, by construction -- the absence of aliasing between the Go objects is established by
+   the tie and the falsifier (the original is observed after every call on the clone), not here.
+   (What the model does say: [Clone] reads its argument and builds a new value; [run ops (Clone target a)]
+   does not mention [a] again; [Append] returns the unchanged [a] when refused.) *)
+(* a refused Append leaves the original exactly as it was: [append_refused_leaves] above; it is refused
+   exactly when the clone's bytes do not fit *)
+Theorem append_refused_iff : forall cb a e, is_refused (Append cb a e) = (zlen (code a) <? n a + n e).
+Proof. intros. unfold Append. destruct (zlen (code a) <? n a + n e); reflexivity. Qed.
+
+(* non-vacuity: a forward reference made before the split and resolved after it, SetBase in the tail *)
+Example clone_append_nonvacuous :
+  let ops := [OIns E2L [208; 255] 2%N TNone GNone; OSetBase 32768; OEmitBytes [1; 2; 3]; OLabel 2%N;
+              OSEP 32; OIns E3L [76; 255; 255] 2%N TNone GNone] in
+  let e0 := new_em (Some (repeat 0 16)) true in
+  let a := fst (run (firstn 1 ops) e0) in
+  no_cap_refusal (skipn 1 ops) a = true /\ no_cap_refusal (skipn 1 ops) (Clone (Some (repeat 7 9)) a) = true /\
+  Bytes (fst (run ops e0)) = [208; 255; 1; 2; 3; 226; 32; 76; 255; 255].
+Proof. cbv zeta. repeat split; vm_compute; reflexivity. Qed.
+
+(* today's Append (base not copied): C16 is refuted.  SetBase in the tail, split before it: the direct
+   emitter finalizes, the appended one indexes code[$8001 - 0] and panics; its listings panic as well *)
+Definition c16_witness_ops : list op := [OSetBase 32768; OIns E2L [128; 255] 0%N TNone GNone; OLabel 0%N].
+Theorem C16_refuted_without_base_copy :
+  let e0 := new_em (Some (repeat 0 16)) true in
+  let a := fst (run (firstn 0 c16_witness_ops) e0) in
+  let c := fst (run (skipn 0 c16_witness_ops) (Clone (Some (repeat 0 8)) a)) in
+  no_cap_refusal c16_witness_ops a = true /\ no_cap_refusal c16_witness_ops (Clone (Some (repeat 0 8)) a) = true /\
+  is_refused (Append false a c) = false /\
+  GetBase (state_of (Append false a c)) = 0 /\ GetBase (fst (run c16_witness_ops e0)) = 32768 /\
+  snd (Finalize [0%N] [] (fst (run c16_witness_ops e0))) = FOk /\
+  snd (Finalize [0%N] [] (state_of (Append false a c))) = FPanic /\
+  snd (WriteTextTo (fst (run c16_witness_ops e0))) = false /\
+  snd (WriteTextTo (state_of (Append false a c))) = true /\
+  observe (state_of (Append false a c)) <> observe (fst (run c16_witness_ops e0)).
+Proof.
+  cbv zeta. do 9 (split; [vm_compute; reflexivity|]).
+  intros H. apply (f_equal ob_base) in H. vm_compute in H. discriminate.
+Qed.
+
+(* ================================================================== summary for the per-run property files *)
+Definition C19_len_le_cap_stmt : Prop := forall e, reachable e -> 0 <= Len e <= Cap e.
+Definition C19_refused_stmt : Prop := forall o e e', exec o e = Refused e' ->
+  Bytes e' = Bytes e /\ Len e' = Len e /\ Cap e' = Cap e /\ PC e' = PC e /\
+  (forall l, GetLabel l e' = GetLabel l e) /\ GetBase e' = GetBase e.
+Definition C19_dry_run_stmt : Prop := forall ops b g k,
+  no_cap_refusal ops (new_em (Some b) g) = true ->
+  let dry := run (firstn k ops) (new_em None g) in
+  let real := run (firstn k ops) (new_em (Some b) g) in
+  PC (fst dry) = PC (fst real) /\ (forall l, GetLabel l (fst dry) = GetLabel l (fst real)) /\
+  Flags (fst dry) = Flags (fst real) /\ IsM16bit (fst dry) = IsM16bit (fst real) /\
+  IsX16bit (fst dry) = IsX16bit (fst real) /\ snd dry = snd real /\ Len (fst dry) = 0.
+Definition C16_stmt (copies_base : bool) : Prop := forall ops k target0 g target,
+  let e0 := new_em target0 g in
+  let a := fst (run (firstn k ops) e0) in
+  let c := fst (run (skipn k ops) (Clone target a)) in
+  (target0 = None <-> target = None) ->
+  no_cap_refusal (skipn k ops) a = true ->
+  no_cap_refusal (skipn k ops) (Clone target a) = true ->
+  is_refused (Append copies_base a c) = false /\
+  observe (state_of (Append copies_base a c)) = observe (fst (run ops e0)).
+
+Theorem C16_holds_with_base_copy : C16_stmt true.
+Proof. exact clone_append_observe. Qed.
+Theorem C16_fails_without_base_copy : ~ C16_stmt false.
+Proof.
+  intros H.
+  specialize (H c16_witness_ops 0%nat (Some (repeat 0 16)) true (Some (repeat 0 8))).
+  cbv zeta in H. destruct H as [_ H].
+  - split; discriminate.
+  - vm_compute. reflexivity.
+  - vm_compute. reflexivity.
+  - apply (f_equal ob_base) in H. vm_compute in H. discriminate.
+Qed.
+Print Assumptions len_le_cap.
+Print Assumptions refused_leaves.
+Print Assumptions dry_run_agrees.
+Print Assumptions C16_holds_with_base_copy.
+Print Assumptions C16_fails_without_base_copy.
+Print Assumptions clone_append_room.
